@@ -13,6 +13,7 @@ mod m_signals;
 mod m_timing;
 mod m_token;
 mod sched;
+mod m_rawsrc;
 mod m_transient;
 
 fn main() {
@@ -28,6 +29,7 @@ fn main() {
         Some("async") => m_async::run(),
         Some("asyncw") => m_asyncw::run(),
         Some("asyncdup") => m_async::run_dup(),
+        Some("adaptkey") => m_async::run_adaptkey(),
         Some("genlife") => m_genlife::run(),
         Some("cexec") => m_cexec::run(),
         Some("cexec13") => m_cexec::run13(),
@@ -43,7 +45,9 @@ fn main() {
         Some("timing") => m_timing::run(),
         Some("timing2") => m_timing::run2(),
         Some("signals") => m_signals::run(),
+        Some("rawsrc") => m_rawsrc::run(),
         Some("transient") => m_transient::run(),
+        Some("transfail") => m_transient::run_fail(),
         Some("seq") => m_seq::run(args.get(2).expect("scenario file")),
         Some("seqtimed") => m_seq::run_timed(args.get(2).expect("scenario file"), args.get(3).and_then(|s| s.parse().ok()).unwrap_or(300)),
         _ => {
